@@ -65,6 +65,10 @@ Cases(dt, dims) ==
          /\ P(CaseOf(Proto(dt, <<274177, 1>> \o dims, enc, n, 0, <<>>, 0) @@ [bigdims |-> <<<<>>, <<53505, 61852, 15664>>>>], <<dt, enc, "dims_product_overflow", "wraps_to_n">>))
          /\ P(CaseOf(Proto(dt, dims \o <<1, 274177>>, enc, n, 0, <<>>, 0) @@ [bigdims |-> [i \in 1..(Len(dims) + 1) |-> IF i = Len(dims) + 1 THEN <<53505, 61852, 15664>> ELSE <<>>]],
                       <<dt, enc, "dims_product_overflow", "wraps_to_n_trailing">>))
+   \* element counts that fit an int although count * element width wraps around 2^64 onto the byte length of the payload:
+   \* 2^61 + n elements of 8 bytes, 2^62 + n of 4, 2^60 + n (no wrap) - with a payload of n elements
+   /\ (n >= 1 /\ n < 65536 => \A enc \in {"raw", "typed"}, top \in {4096, 8192, 16384} :
+         P(CaseOf(Proto(dt, <<1>>, enc, n, 0, <<>>, 0) @@ [bigdims |-> <<<<n, 0, 0, top>>>>], <<dt, enc, "byte_size_overflow", "top" \o ToString(top)>>)))
    \* raw bool bytes other than 0 and 1
    /\ (dt = "bool" /\ n >= 1 =>
          \A b \in {2, 128, 255} :
